@@ -344,6 +344,26 @@ Fixpoint runG (g : bool) (c : cfg) (s : st) (l : list act) : option st :=
       else None
   end.
 
+(* what a run shows of the current incarnation: the position its init read and the offsets its
+   projector was invoked with since, in order *)
+Definition track (pi : N * list N) (a : act) : N * list N :=
+  match a with
+  | RInitOk p => (p, [])
+  | PInvoke o _ => (fst pi, snd pi ++ [o])
+  | _ => pi
+  end.
+Definition tracked (l : list act) : N * list N := fold_left track l (0, []).
+
+(* nothing left to do: the reader waits for a notification beyond the last one it was told about,
+   which covers the whole log; the operator is idle with an empty input and no flush timer pending *)
+Definition quiescentb (s : st) : bool :=
+  match r (sr s), pc (sj s), q (sj s) with
+  | RWatch, PIdle, [] =>
+      (dlv (sr s) =? ntf (sp s)) && (ntf (sp s) =? len (lg (sp s))) && alive (sj s) && actv (sj s)
+      && negb (stopped (sr s)) && negb (armed (sj s)) && negb (tickp (sj s))
+  | _, _, _ => false
+  end.
+
 (* ---- quiescence: the canonical hidden steps ---- *)
 Definition hidden_order : list act :=
   [HNotice; HSend; HLoopExit; HNextRound; HDeliver; HDrop; HSkip; HTake; HFlushDone; HTimer; HClose; HClosed; HRetryStop].
